@@ -660,6 +660,10 @@ fn typed_sweep(which: Which, tier: Tier, variants: bool, perturbed: bool) -> Swe
         },
         move |idx| format!("{} (and its variants)", surface::print(&p2[idx as usize].1)),
     )
+    // thorough tier of C03 / C04: a worker holds the 7-node program list and the reference checker's
+    // garbage for 6.5 M perturbed programs and their derived applications (4-5 GB each); sixteen of them
+    // were killed by the kernel for lack of memory once (a machinery error, not a verdict), eight fit
+    .with_max_workers(if tier == Tier::Thorough && matches!(which, Which::C03 | Which::C04) { 8 } else { 16 })
     .with_post_abort(abort_verdict)
 }
 
